@@ -41,15 +41,23 @@ def sizeDoubleSize2 : Nat := 7
 
 /-! ## vbi_print_page_region, table mode -/
 
-/-- `**p == 0x40 && unicode != 0x0040`: the conversion result is taken for iconv's '@' replacement -/
-def atSign (bs : Bytes) (u : Nat) : Bool := bs.head? == some 0x40 && u != 0x40
+/-- `**p == 0x40 && unicode != 0x0040`: the conversion result is taken for iconv's '@' replacement
+    (with the F27b repair only when it is a single byte) -/
+def atSign (cfg : Cfg) (bs : Bytes) (u : Nat) : Bool :=
+  bs.head? == some 0x40 && u != 0x40 && (!cfg.atOneByte || bs.length == 1)
 
 /-- first `iconv` call of `print_unicode`: the bytes, if the character converts, fits into `n` bytes
     and is not taken for '@' -/
-def firstTry (conv : Nat → Option Bytes) (u n : Nat) : Option Bytes :=
+def firstTry (cfg : Cfg) (conv : Nat → Option Bytes) (u n : Nat) : Option Bytes :=
   match conv u with
-  | some bs => if bs.length ≤ n && !atSign bs u then some bs else none
+  | some bs => if bs.length ≤ n && !atSign cfg bs u then some bs else none
   | none => none
+
+/-- the first `iconv` call fails with E2BIG: the character converts but does not fit -/
+def tooBig (conv : Nat → Option Bytes) (u n : Nat) : Bool :=
+  match conv u with
+  | some bs => decide (n < bs.length)
+  | none => false
 
 /-- second `iconv` call: a space -/
 def spaceTry (conv : Nat → Option Bytes) (n : Nat) : Option Bytes :=
@@ -58,33 +66,36 @@ def spaceTry (conv : Nat → Option Bytes) (n : Nat) : Option Bytes :=
   | none => none
 
 /-- exp-txt.c:278 `print_unicode`: the bytes appended at `*p` when `n` bytes are left, `none` = FALSE.
-    A character that cannot be converted, does not fit, or comes out as '@' is replaced by a space. -/
-def printUnicode (conv : Nat → Option Bytes) (u : Nat) (n : Nat) : Option Bytes :=
-  match firstTry conv u n with
-  | some bs => some bs
-  | none => spaceTry conv n
+    A character that cannot be converted or comes out as '@' is replaced by a space; one that does not
+    fit is replaced by a space too (F27a) unless the repair is present, then the function fails. -/
+def printUnicode (cfg : Cfg) (conv : Nat → Option Bytes) (u : Nat) (n : Nat) : Option Bytes :=
+  if cfg.printE2big && tooBig conv u n then none
+  else
+    match firstTry cfg conv u n with
+    | some bs => some bs
+    | none => spaceTry conv n
 
 /-- `if (ac.size > VBI_DOUBLE_SIZE) ac.unicode = 0x0020` -/
 def effUnicode (c : Cell) : Nat := if c.size > sizeDoubleSize then 0x20 else c.unicode
 
 /-- inner loop over one row; `p` = bytes written so far -/
-def printCells (conv : Nat → Option Bytes) (size : Nat) : List Cell → Bytes → Option Bytes
+def printCells (cfg : Cfg) (conv : Nat → Option Bytes) (size : Nat) : List Cell → Bytes → Option Bytes
   | [], p => some p
   | c :: cs, p =>
-    match printUnicode conv (effUnicode c) (size - p.length) with
+    match printUnicode cfg conv (effUnicode c) (size - p.length) with
     | none => none
-    | some bs => printCells conv size cs (p ++ bs)
+    | some bs => printCells cfg conv size cs (p ++ bs)
 
 /-- outer loop; between rows one '\n' is stored after an explicit space check -/
-def printRows (conv : Nat → Option Bytes) (size : Nat) : List (List Cell) → Bytes → Except Fault (Option Bytes)
+def printRows (cfg : Cfg) (conv : Nat → Option Bytes) (size : Nat) : List (List Cell) → Bytes → Except Fault (Option Bytes)
   | [], p => .ok (some p)
-  | [r], p => .ok (printCells conv size r p)
+  | [r], p => .ok (printCells cfg conv size r p)
   | r :: rs, p =>
-    match printCells conv size r p with
+    match printCells cfg conv size r p with
     | none => .ok none
     | some p1 =>
       if size - p1.length < 1 then .ok none        -- left < 1
-      else if p1.length < size then printRows conv size rs (p1 ++ [0x0A])   -- *p++ = '\n'
+      else if p1.length < size then printRows cfg conv size rs (p1 ++ [0x0A])   -- *p++ = '\n'
       else .error (.oob "exp-txt.c:459 newline")
 
 /-- a bounded `for` loop whose body can fail -/
@@ -111,7 +122,7 @@ def regionCells (pg : Page) (col row w h : Nat) : Except Fault (List (List (Nat 
 
 /-- exp-txt.c:346 `vbi_print_page_region (pg, buf, size, format, table = TRUE, ...)`.
     `.ok none` = returns 0 (failure), `.ok (some out)` = returns `out.length` with `out` in `buf`. -/
-def printRegion (conv : Nat → Option Bytes) (pg : Page) (size column row width height : Int) :
+def printRegion (cfg : Cfg) (conv : Nat → Option Bytes) (pg : Page) (size column row width height : Int) :
     Except Fault (Option Bytes) :=
   let column1 := column + width - 1
   let row1 := row + height - 1
@@ -119,7 +130,7 @@ def printRegion (conv : Nat → Option Bytes) (pg : Page) (size column row width
   else
     match regionCells pg column.toNat row.toNat width.toNat height.toNat with
     | .error f => .error f
-    | .ok cells => printRows conv size.toNat (cells.map (·.map (·.2))) []
+    | .ok cells => printRows cfg conv size.toNat (cells.map (·.map (·.2))) []
 
 /-! ## region rendering: the byte runs written -/
 
